@@ -155,6 +155,9 @@ MESHES = {
     # triangle, quad, pentagon
     'tqp': ([(0, 0), (2, 0), (2, 2), (0, 2), (4, 0), (4, 2), (5, 1), (1, 3)],
             [[0, 1, 2, 3], [1, 4, 6, 5, 2], [3, 2, 7]]),
+    # tqp with a node that no face uses (left behind by an earlier edit of the mesh) in the middle of the node list
+    'tqpx': ([(0, 0), (2, 0), (9, 9), (2, 2), (0, 2), (4, 0), (4, 2), (5, 1), (1, 3)],
+             [[0, 1, 3, 4], [1, 5, 7, 6, 3], [4, 3, 8]]),
     # strip of three quads
     'qqq': ([(0, 0), (1, 0), (2, 0), (3, 0), (0, 1), (1, 1), (2, 1), (3, 1)],
             [[0, 1, 5, 4], [1, 2, 6, 5], [2, 3, 7, 6]]),
